@@ -70,7 +70,7 @@ pub fn view(data: &[u8]) -> c10::ViewCase {
     let len = idx(&mut u, 2049);
     let len = if idx(&mut u, 2) == 0 { len - len % n } else { len };
     let mode = [c10::Mode::Shared, c10::Mode::Mutable, c10::Mode::Boxed][idx(&mut u, 3)];
-    c10::ViewCase { kind, n, len, mode }
+    c10::ViewCase { kind, n, len, mode, offset: data.last().map_or(0, |b| *b as usize % 8) }
 }
 
 pub fn slice_op(data: &[u8]) -> c10::OpCase {
@@ -114,7 +114,9 @@ pub fn bus(data: &[u8]) -> c13::Case {
             _ => c13::Op::Next(i),
         });
     }
-    c13::Case { src_len, max_live, ops }
+    // the final input byte decides whether (and where) the Bus handle itself is dropped
+    let drop_bus_at = data.last().filter(|b| **b % 4 == 0).map(|b| (*b as usize / 4) * ops.len() / 64);
+    c13::Case { src_len, max_live, ops, drop_bus_at }
 }
 
 pub fn buffered(data: &[u8]) -> c14::Case {
